@@ -305,6 +305,37 @@ def diff(a, b, path=""):
     return out
 
 
+def check_hash_width(ctx, prog):
+    """The released placement hash folds bytes into a 64-bit accumulator: every shift / or / xor / and in the hasher's
+    `write` (after normalisation: closures of a `fold` spliced, new helpers inlined) and in the mixer operates on u64.
+    A narrower accumulator (`fold(0, |a, b| (a << 8) | u32::from(*b))`, `as u32` on the way) has the same statement
+    shape and the same constants but loses the high bytes of 5..7-byte tails: keys are re-placed."""
+    wr = [f for f in prog.fns.values() if f.crate == "abyssiniandb" and f.name == "write" and f.impl_trait == "core::hash::Hasher"]
+    if not ctx.check(len(wr) == 1, "hash-width", "anchor", "expected exactly one Hasher::write in the crate, found %d" % len(wr)):
+        return
+    w = wr[0]
+    fns = [w] + list(prog.closures_of(w))
+    for b, t in w.calls():
+        if (t.get("callee") or "").startswith("abyssiniandb::"):
+            for x in prog.targets(t, w)[0]:
+                if x.crate == "abyssiniandb" and x.id not in [f.id for f in fns]:
+                    fns.append(x)
+    n = 0
+    for f in fns:
+        ctx.touch(f, len(f.blocks))
+        for bi, blk in enumerate(f.blocks):
+            if blk["cleanup"]:
+                continue
+            for s in blk["stmts"]:
+                if s["s"] == "assign" and s["rhs"]["rv"] == "bin" and s["rhs"]["op"] in ("Shl", "Shr", "BitOr", "BitXor", "BitAnd"):
+                    n += 1
+                    aty = s["rhs"].get("aty")
+                    ctx.check(aty == "u64", "hash-width", "%s:%s" % (f.name, s["rhs"]["op"]),
+                              "the placement hash computes `%s` on %s in %s: the released hash folds into a 64-bit accumulator, a narrower one drops "
+                              "the high bytes of the fold and re-places keys" % (s["rhs"]["op"], aty, f.name), where=where(f, bi))
+    ctx.floor("hash-width", "bit operations of the placement hash checked for 64-bit width", n, 5)
+
+
 def _check_own(ctx):
     prog = ctx.prog
     try:
@@ -349,6 +380,7 @@ def _check_own(ctx):
         r = fp["records"].get(kind + "_record_reader")
         ctx.check(w == r, "reader-writer-agreement", kind, "the %s record reader consumes %s but the writer emits %s" % (kind, r, w))
     ctx.sample({"fingerprint_excerpt": {"files": fp["files"], "hash": fp["hash"], "signatures": fp["signatures"]}})
+    check_hash_width(ctx, prog)
     c02.check_seedless(ctx, prog, rule="placement-seedless")
     from . import poscontrol
     poscontrol.nondet_control(ctx)
